@@ -38,11 +38,20 @@ A0 == [items |-> <<>>, rec |-> FALSE, i18n |-> "", dirs |-> <<>>, src |-> <<>>, 
 Items(s, r) == [A0 EXCEPT !.items = s, !.rec = r]
 \* own: ownership options given together with the mode ("" none, "o" -o0, "g" -g0, "og" both); ownership
 \* itself is not judged (the checks run as root) but the requested mode must survive it
-DestOp(op, path) == [op |-> op, path |-> path, mode |-> 0, own |-> "", h |-> "-", a |-> A0]
-ModeOwn(op, m, own) == [op |-> op, path |-> <<>>, mode |-> m, own |-> own, h |-> "-", a |-> A0]
+\* text: the mode written symbolically (install -m TEXT); "" = written as the octal number.  mode is what
+\* TEXT means for a new file / directory (symbolic modes of install start from 0): see SymModes.
+DestOp(op, path) == [op |-> op, path |-> path, mode |-> 0, own |-> "", text |-> "", h |-> "-", a |-> A0]
+ModeOwn(op, m, own) == [op |-> op, path |-> <<>>, mode |-> m, own |-> own, text |-> "", h |-> "-", a |-> A0]
 ModeOp(op, m)    == ModeOwn(op, m, "")
-CallOp(h, a)     == [op |-> "call", path |-> <<>>, mode |-> 0, own |-> "", h |-> h, a |-> a]
-Script(eapi, tag, steps) == [eapi |-> eapi, tag |-> tag, steps |-> steps]
+ModeSym(op, sm)  == [op |-> op, path |-> <<>>, mode |-> sm[2], own |-> "", text |-> sm[1], h |-> "-", a |-> A0]
+CallOp(h, a)     == [op |-> "call", path |-> <<>>, mode |-> 0, own |-> "", text |-> "", h |-> h, a |-> a]
+SymRX == <<"a+rx", 365>>                \* 0555
+SymDir == <<"u=rwx,g=rx,o=", 488>>      \* 0750
+SymRW == <<"u=rw,go=r", 420>>           \* 0644
+SymPriv == <<"u=rwx,go=", 448>>         \* 0700
+\* umask of the process that runs the phase (decimal; 18 = 022): PMS modes do not depend on it
+ScriptU(eapi, tag, steps, um) == [eapi |-> eapi, tag |-> tag, steps |-> steps, umask |-> um]
+Script(eapi, tag, steps) == ScriptU(eapi, tag, steps, 18)
 
 \* argument vectors: one or two distinct items
 Vecs(U) == {<<x>> : x \in U} \cup {<<u[1], u[2]>> : u \in {v \in U \X U : v[1] # v[2]}}
@@ -131,5 +140,43 @@ SetId == {Script(8, "setid", <<DestOp("insinto", <<"etc", "x">>), ModeOwn("insop
     \cup {Script(6, "setid", <<ModeOwn("libopts", m, o), CallOp("dolib", Items(<<F1>>, FALSE))>>) : m \in SetIdModes, o \in {"", "o", "g", "og"}}
     \cup {Script(8, "setid", <<ModeOwn("diropts", m, o), CallOp(h, [A0 EXCEPT !.dirs = << <<"var", "k">> >>])>>) : h \in {"dodir", "keepdir"}, m \in {M2750, M1777, M2775}, o \in {"", "o", "g", "og"}}
 
-Cases == DosymPrefix \cup SetIdFixed \cup SetId \cup Doins \cup Doexe \cup Bins \cup Dolib \cup Dodoc \cup Doman \cup Domo \cup Dohtml \cup Dodirs \cup Dosym \cup Dohard \cup Twice
+(* several requests to the same helper object, with identical and with changing options, symbolic modes
+   (served by the external `install`) included                                                        *)
+Exe == DestOp("exeinto", <<"opt", "e">>)
+Ins == DestOp("insinto", <<"etc", "x">>)
+F3 == PlainFile(<<>>, "b.txt", "cb", "txt")
+DirCall(h, d) == CallOp(h, [A0 EXCEPT !.dirs = <<d>>])
+Repeat == {
+    Script(8, "all-repeat", <<Exe, ModeSym("exeopts", SymRX), CallOp("doexe", Items(<<F1>>, FALSE)), CallOp("doexe", Items(<<F3>>, FALSE)),
+                              CallOp("doexe", Items(<<F2>>, FALSE))>>),
+    Script(8, "all-repeat", <<Exe, ModeSym("exeopts", SymRX), CallOp("doexe", Items(<<F1>>, FALSE)), ModeOp("exeopts", M700),
+                              CallOp("doexe", Items(<<F3>>, FALSE)), ModeSym("exeopts", SymPriv), CallOp("doexe", Items(<<F2>>, FALSE))>>),
+    Script(8, "all-repeat", <<Exe, ModeOp("exeopts", M700), CallOp("doexe", Items(<<F1>>, FALSE)), ModeSym("exeopts", SymRX),
+                              CallOp("doexe", Items(<<F3>>, FALSE)), CallOp("doexe", Items(<<F2>>, FALSE))>>),
+    Script(8, "all-repeat", <<ModeSym("diropts", SymDir), DirCall("dodir", <<"a">>), DirCall("dodir", <<"b">>), DirCall("keepdir", <<"c">>),
+                              DirCall("keepdir", <<"d">>)>>),
+    Script(8, "all-repeat", <<ModeSym("diropts", SymDir), DirCall("dodir", <<"a">>), ModeOp("diropts", M700), DirCall("dodir", <<"b">>),
+                              ModeSym("diropts", SymDir), DirCall("dodir", <<"c">>)>>),
+    Script(8, "all-repeat", <<Ins, ModeSym("insopts", SymRW), CallOp("doins", Items(<<F1>>, FALSE)), CallOp("doins", Items(<<F3>>, FALSE)),
+                              ModeOp("insopts", M600), CallOp("doins", Items(<<F2>>, FALSE))>>),
+    Script(8, "all-repeat", <<Ins, ModeSym("insopts", SymPriv), ModeSym("diropts", SymDir), CallOp("doins", Items(<<D1>>, TRUE)),
+                              CallOp("doins", Items(<<F1>>, FALSE)), ModeOp("diropts", M755), CallOp("doins", Items(<<F3>>, FALSE))>>),
+    Script(6, "all-repeat", <<ModeSym("libopts", SymRX), CallOp("dolib", Items(<<F1>>, FALSE)), CallOp("dolib", Items(<<F3>>, FALSE))>>),
+    Script(8, "all-repeat", <<CallOp("dodoc", Items(<<F1>>, FALSE)), CallOp("dodoc", Items(<<X1>>, FALSE)), CallOp("dodoc", Items(<<D1>>, TRUE)),
+                              CallOp("dodoc", Items(<<F3>>, FALSE))>>),
+    Script(8, "all-repeat", <<Ins, CallOp("doins", Items(<<X1>>, TRUE)), CallOp("doins", Items(<<D1>>, TRUE)), CallOp("doins", Items(<<D1, F1>>, TRUE))>>) }
+
+(* doman -i18n together with language-suffixed and unsuffixed pages of the same base name *)
+ManI18nCases == {Script(e, "all-doman-i18n", <<CallOp("doman", [Items(v, FALSE) EXCEPT !.i18n = "fr"])>>) :
+                e \in {4, 8}, v \in {<<M1, M2>>, <<M2, M1>>, <<M2>>, <<M3, M6>>}}
+
+(* a restrictive umask: the modes PMS prescribes are absolute *)
+Umask == {ScriptU(8, "all-umask", s, 63) : s \in {
+            <<CallOp("dodoc", Items(<<F1>>, FALSE))>>, <<CallOp("dodoc", Items(<<D1>>, TRUE))>>, <<CallOp("doman", Items(<<M1, M2>>, FALSE))>>,
+            <<CallOp("domo", Items(<<Mo1>>, FALSE))>>, <<Ins, CallOp("doins", Items(<<F1, D1>>, TRUE))>>,
+            <<Exe, CallOp("doexe", Items(<<F1>>, FALSE))>>, <<CallOp("dobin", Items(<<F1>>, FALSE))>>,
+            <<CallOp("dolib.a", Items(<<F1>>, FALSE))>>, <<DirCall("dodir", <<"var", "k">>), DirCall("keepdir", <<"var", "j">>)>>}}
+         \cup {ScriptU(6, "all-umask", <<CallOp("dohtml", Items(<<H1, D1>>, TRUE))>>, 63)}
+
+Cases == Repeat \cup ManI18nCases \cup Umask \cup DosymPrefix \cup SetIdFixed \cup SetId \cup Doins \cup Doexe \cup Bins \cup Dolib \cup Dodoc \cup Doman \cup Domo \cup Dohtml \cup Dodirs \cup Dosym \cup Dohard \cup Twice
 =========================================================================
